@@ -41,13 +41,19 @@ func runG08(raw json.RawMessage, w *Writer) {
 			pz := rtp.NewPacketizer(uint16(c.Mtu), uint8(96+i), uint32(1000+i), &codecs.G711Payloader{}, seq, 8000)
 			<-gate
 			for _, n := range c.Sizes[i] {
-				buf := make([]byte, n)
+				buf := make([]byte, n%100000)
 				for k := range buf {
 					buf[k] = byte(i)
 				}
 				nums := []int{}
 				r, _ := guard(func() {
-					for _, p := range pz.Packetize(buf, 160) {
+					var pkts []*rtp.Packet
+					if n >= 100000 { // padding-only packets draw from the same sequencer
+						pkts = pz.GeneratePadding(uint32(n - 100000))
+					} else {
+						pkts = pz.Packetize(buf, 160)
+					}
+					for _, p := range pkts {
 						if p == nil || p.SSRC != uint32(1000+i) || p.PayloadType != uint8(96+i) {
 							foreign[i]++
 							continue
